@@ -829,6 +829,7 @@ pub fn run_part(prop: &'static str, tier: crate::vcore::Tier, reporter: &crate::
     if fl.is_empty() {
         return;
     }
+    let t_start = std::time::Instant::now();
     if std::env::var("VERIF_E7_DEBUG").is_ok() {
         for f in fl.iter() {
             let t = std::time::Instant::now();
@@ -865,7 +866,7 @@ pub fn run_part(prop: &'static str, tier: crate::vcore::Tier, reporter: &crate::
     ev.states += results.iter().map(|r| r.2 as u64).sum::<u64>();
     ev.transitions += results.iter().map(|r| r.1 as u64).sum::<u64>();
     ev.traces_validated += fl.len() as u64;
-    ev.set("fullstack_flows", json!({"flows": fl.len(), "script_steps": results.iter().map(|r| r.2).sum::<usize>(), "packets_exchanged": results.iter().map(|r| r.1).sum::<usize>(), "forwards_received": forwards, "names": fl.iter().map(|f| f.name.clone()).collect::<Vec<_>>()}));
+    ev.set("fullstack_flows", json!({"wall_s": t_start.elapsed().as_secs_f64(), "flows": fl.len(), "script_steps": results.iter().map(|r| r.2).sum::<usize>(), "packets_exchanged": results.iter().map(|r| r.1).sum::<usize>(), "forwards_received": forwards, "names": fl.iter().map(|f| f.name.clone()).collect::<Vec<_>>()}));
     ev.assumptions.push("the full-stack flows run every client through the real remote() task over in-memory duplex streams with the real router loop on a second thread; each script step waits until both sides are quiet, so the schedules covered are those in which the router and the links run to quiescence between client actions (what happens inside is real concurrency, judged only through per-connection packet sequences)".into());
 }
 
@@ -1078,6 +1079,7 @@ pub fn run_embedded_part(prop: &'static str, tier: crate::vcore::Tier, reporter:
     use rayon::prelude::*;
     use serde_json::json;
     let cases = embedded_cases(tier == crate::vcore::Tier::Thorough);
+    let t_start = std::time::Instant::now();
     let bad: usize = cases
         .par_iter()
         .map(|c| {
@@ -1098,7 +1100,7 @@ pub fn run_embedded_part(prop: &'static str, tier: crate::vcore::Tier, reporter:
     ev.states += cases.len() as u64;
     ev.transitions += cases.iter().map(|c| c.n as u64 + 6).sum::<u64>();
     ev.traces_validated += cases.len() as u64;
-    ev.set("embedded_link_scenarios", json!({"scenarios": cases.len(), "messages": cases.iter().map(|c| c.n).sum::<usize>(), "api": "LinkBuilder::build, LinkTx::{publish, try_publish, subscribe, unsubscribe}, LinkRx::{recv_deadline, ready}"}));
+    ev.set("embedded_link_scenarios", json!({"wall_s": t_start.elapsed().as_secs_f64(), "scenarios": cases.len(), "messages": cases.iter().map(|c| c.n).sum::<usize>(), "api": "LinkBuilder::build, LinkTx::{publish, try_publish, subscribe, unsubscribe}, LinkRx::{recv_deadline, ready}"}));
 }
 
 pub fn replay_embedded(v: &serde_json::Value) -> i32 {
